@@ -88,6 +88,7 @@ type FuncContract struct {
 	PureCallbacks map[string]bool // callback parameters assumed to have no effect on the heap
 	Bounded map[string]Clause // ensures label -> bound under which it is checked (a bounded stand-in, not a proof)
 	IsIface     bool // contract on an interface method (no body to verify)
+	Reveals     map[string]bool // hidden pure functions whose definition this function's proof may use
 	Logged      bool   // maintain call-log ghost variables calls_<Name>, arg_<Name>_<param>
 	LogName     string
 	Trusted     bool
@@ -99,6 +100,7 @@ type FuncContract struct {
 }
 
 type PureFunc struct {
+	Hidden  bool // uninterpreted outside contracts that `reveal` it (value parameters only)
 	Name    string
 	Params  []QVar
 	Result  string
@@ -138,7 +140,7 @@ type ContractFile struct {
 var clauseKeywords = map[string]bool{
 	"func": true, "lemma": true, "extern": true, "opaque": true, "pure": true, "props": true, "arith": true,
 	"requires": true, "ensures": true, "modifies": true, "loop": true, "inline": true, "trusted": true,
-	"nosafe": true, "effectfree": true, "uses": true, "ghost": true, "assigns": true, "logged": true, "callsite": true, "where": true, "global": true, "recvfrom": true, "sets": true, "coretypes": true, "appends": true, "splitreturns": true, "purecallback": true, "bounded": true,
+	"nosafe": true, "effectfree": true, "uses": true, "ghost": true, "assigns": true, "logged": true, "callsite": true, "where": true, "global": true, "recvfrom": true, "sets": true, "coretypes": true, "appends": true, "splitreturns": true, "purecallback": true, "bounded": true, "reveal": true,
 }
 
 var labelRe = regexp.MustCompile(`^([A-Za-z_][A-Za-z0-9_]*)\s*:\s*([^:=].*)$`)
@@ -281,6 +283,13 @@ func ParseContractFile(path, pkgPath string) (*ContractFile, error) {
 			cf.Opaque = append(cf.Opaque, strings.TrimSpace(strings.TrimPrefix(rest, "type")))
 		case "pure":
 			// pure func name(a T, b T) R = expr
+			hidden := false
+			if strings.HasPrefix(rest, "hidden ") {
+				// pure hidden func: an uninterpreted function of its arguments wherever it is
+				// not revealed - callers reason about it by congruence only
+				hidden = true
+				rest = strings.TrimSpace(strings.TrimPrefix(rest, "hidden"))
+			}
 			rest = strings.TrimSpace(strings.TrimPrefix(rest, "func"))
 			head, body, ok := strings.Cut(rest, "=")
 			if !ok {
@@ -290,14 +299,18 @@ func ParseContractFile(path, pkgPath string) (*ContractFile, error) {
 			// careful: '=' may be part of '==' in body only; head has none
 			name, ps, _ := strings.Cut(head, "(")
 			ps, res, _ := strings.Cut(ps, ")")
-			pf := &PureFunc{Name: strings.TrimSpace(name), Result: strings.TrimSpace(res), PkgPath: pkgPath}
+			pf := &PureFunc{Name: strings.TrimSpace(name), Result: strings.TrimSpace(res), PkgPath: pkgPath, Hidden: hidden}
 			for _, p := range strings.Split(ps, ",") {
 				p = strings.TrimSpace(p)
 				if p == "" {
 					continue
 				}
 				n, t, _ := strings.Cut(p, " ")
-				pf.Params = append(pf.Params, QVar{n, strings.TrimSpace(t)})
+				t = strings.TrimSpace(t)
+				if hidden && (strings.HasPrefix(t, "*") || strings.HasPrefix(t, "[") || strings.HasPrefix(t, "map")) {
+					addErr(rc.line, "pure hidden func %s: parameter %s must be a value (a hidden function may not read the heap)", name, n)
+				}
+				pf.Params = append(pf.Params, QVar{n, t})
 			}
 			e, err := ParseSpec(strings.TrimSpace(body))
 			if err != nil {
@@ -388,6 +401,13 @@ func ParseContractFile(path, pkgPath string) (*ContractFile, error) {
 					}
 				default:
 					addErr(rc.line, "unknown loop clause %q", k2)
+				}
+			case "reveal":
+				if cur.Reveals == nil {
+					cur.Reveals = map[string]bool{}
+				}
+				for _, n := range strings.FieldsFunc(rest, func(r rune) bool { return r == ',' || r == ' ' }) {
+					cur.Reveals[n] = true
 				}
 			case "assigns":
 				cur.Assigns = append(cur.Assigns, strings.FieldsFunc(rest, func(r rune) bool { return r == ',' || r == ' ' })...)
